@@ -49,7 +49,7 @@ MALFORMATIONS = ['undefined-type', 'truncated-value', 'length-overrun', 'no-end-
 
 
 def counts(tier: str):
-    return (400, 75.0) if tier == 'quick' else (25000, 900.0)
+    return (1200, 75.0) if tier == 'quick' else (25000, 900.0)
 
 
 # --------------------------------------------------------------------------- rule generation
@@ -140,7 +140,20 @@ def generate(rng, tier: str, index: int) -> dict:
     for _ in range(rng.randint(1, 10)):
         afi = rng.choice([1, 1, 2])
         vpn = rng.chance(0.25)
-        text_rules.append({'rule': gen_rule(rng, afi, vpn), 'actions': gen_actions(rng), 'shuffle': rng.randint(1, 1 << 30), 'via': rng.choice(['api', 'api', 'config'])})
+        text_rules.append({'rule': gen_rule(rng, afi, vpn), 'actions': gen_actions(rng), 'shuffle': rng.randint(1, 1 << 30), 'via': rng.choice(['api', 'api', 'api-line', 'config'])})
+    if rng.chance(0.3):
+        # a rule whose encoded length lands exactly on a boundary of the length prefix
+        target = rng.choice([239, 240, 240, 241, 255, 256, 257])
+        vpn = rng.chance(0.3)
+        base = 6 + (8 if vpn else 0)  # source a.b.c.d/32
+        rest = target - base - 1
+        m = {0: 0, 1: 2, 2: 1}[rest % 3]
+        n = (rest - 2 * m) // 3
+        items = [[False, False, False, True, 1000 + i, None] for i in range(n)] + [[False, False, False, True, 10 + i, None] for i in range(m)]
+        rule = {'afi': 1, 'comps': [[2, ['10.0.0.1', 32, 0]], [rng.choice([4, 5, 6, 10]), items]]}
+        if vpn:
+            rule['rd'] = [0, 65000, 1]
+        text_rules.append({'rule': rule, 'actions': [['discard']], 'shuffle': 1, 'via': rng.choice(['api', 'config']), 'exact': target})
     wire_rules = []
     for _ in range(rng.randint(1, 10)):
         afi = rng.choice([1, 1, 2])
@@ -207,6 +220,19 @@ def rule_text(tr: dict) -> str:
     if rule.get('rd'):
         rd = f'rd {R.rd_str(R.enc_rd(*rule["rd"]))}; '
     return '{ ' + rd + 'match { ' + ' '.join(stmts) + ' } then { ' + ' '.join(acts) + ' } }'
+
+
+def rule_text_line(tr: dict) -> str:
+    """the one-line API spelling: `route <match keywords> [rd x] <action keywords>`, no braces"""
+    t = rule_text(tr)
+    inner = t[1:-1].strip()
+    rd = ''
+    if inner.startswith('rd '):
+        rd, inner = inner.split(';', 1)
+        rd = rd.strip() + ' '
+    m = inner[inner.index('match {') + 7 : inner.index('} then {')]
+    a = inner[inner.index('} then {') + 8 : inner.rindex('}')]
+    return (m.replace(';', ' ') + ' ' + rd + a.replace(';', ' ')).strip()
 
 
 def expected_ecs(actions: list) -> set:
@@ -425,6 +451,9 @@ def execute(plan: dict) -> dict:
             if tr['via'] == 'api':
                 w.after(t, lambda tr=tr: h.emit(('peer * announce flow route ' + rule_text(tr) + '\n').encode()))
                 t += plan['gap']
+            elif tr['via'] == 'api-line':
+                w.after(t, lambda tr=tr: h.emit(('peer * announce flow route ' + rule_text_line(tr) + '\n').encode()))
+                t += plan['gap']
         base = R.attribute(R.A_ORIGIN, b'\x00') + R.attribute(R.A_AS_PATH, R.enc_as_path([(2, [peer_as])] if not plan['ibgp'] else [], plan['asn4'])) + (R.attribute(R.A_LOCAL_PREF, (100).to_bytes(4, 'big')) if plan['ibgp'] else b'')
         for wr in plan['wire_rules']:
             nl, ok = wire_bytes(wr)
@@ -476,12 +505,12 @@ def _judge(w, plan, sp, h, sent_wire, violations, probes, deferred) -> None:
     got: dict = {}
     first = sp.sessions[0] if sp.sessions else None
     acks = [ln for _, ln in h.lines if ln in ('done', 'error') or ln.startswith('error')]
-    napi = sum(1 for tr in plan['text_rules'] if tr['via'] == 'api')
+    napi = sum(1 for tr in plan['text_rules'] if tr['via'] in ('api', 'api-line'))
     if any(a != 'done' for a in acks[:napi]):
         bad = next(i for i, a in enumerate(acks[:napi]) if a != 'done')
-        tr = [t for t in plan['text_rules'] if t['via'] == 'api'][bad]
+        tr = [t for t in plan['text_rules'] if t['via'] in ('api', 'api-line')][bad]
         errs = [ln for _, ln in h.lines if ln.startswith('error')][:1]
-        violations.append(viol('C16/rule-refused', f'the API refused a rule RFC 8955/8956 allows: {rule_text(tr)[:300]} {errs}', afi=tr['rule']['afi']))
+        violations.append(viol('C16/rule-refused', f'the API refused a rule RFC 8955/8956 allows ({tr["via"]}): {(rule_text_line(tr) if tr["via"] == "api-line" else rule_text(tr))[:300]} {errs}', afi=tr['rule']['afi'], via=tr['via']))
         return
     for sess in sp.sessions:
         for t, body, d in sess.updates:
@@ -559,6 +588,9 @@ def _judge(w, plan, sp, h, sent_wire, violations, probes, deferred) -> None:
                     try:
                         reported.append((afi, json_rule(e, afi), e.get('string', '')))
                     except (ValueError, KeyError, IndexError) as exc:
+                        if afi == 2 and any(has_v6_offset(r['wr']['rule']) for r in sent_wire):
+                            probes['v6_offset_garbage_reported'] = probes.get('v6_offset_garbage_reported', 0) + 1
+                            continue  # what ExaBGP makes of an NLRI with an offset (the recorded finding) need not be a readable rule
                         raise RuntimeError(f'cannot read the JSON flow rule back: {exc}: {json.dumps(e)[:300]}') from None
     rep_set = {(a, r) for a, r, _ in reported}
     for rec in sent_wire:
